@@ -160,7 +160,9 @@ class RepoIndex:
             for short, f in fs:
                 old = PARAMS.get(f'{m.relpath}:{short}')
                 if old is None:
-                    continue
+                    # a function the pinned tree did not have: all its optional parameters are
+                    # new options
+                    old = []
                 dflt = f.param_defaults()
                 for p_, d in dflt.items():
                     if isinstance(d, ast.Name) and len(m.assigns.get(d.id, [])) == 1 and \
